@@ -22,9 +22,11 @@ ANCHORS = ['pycaption.dfxp.base:DFXPReader._convert_style', 'pycaption.dfxp.base
            'pycaption.webvtt:WebVTTWriter._calculate_resulting_style']
 REQUIRE = {'chain_dfxp': 50, 'chain_sami': 50, 'chain_dfxp>sami': 30, 'chain_sami>dfxp': 30, 'chain_webvtt': 50,
            'reader_captions_balance_checked': 200, 'chars_compared': 5000, 'spans_across_break': 50,
-           'adjacent_spans': 50, 'empty_spans': 20, 'italic_chars': 500, 'bold_chars': 200, 'underline_chars': 200, 'positioned_captions': 30, 'suite_captions_balance_checked': 300}
+           'adjacent_spans': 50, 'empty_spans': 20, 'italic_chars': 500, 'bold_chars': 200, 'underline_chars': 200, 'positioned_captions': 30, 'suite_captions_balance_checked': 300,
+           'rollup_streams_with_italics_read': 20, 'dfxp_documents_round_tripped': 20}
 
-KINDS = [{'italics': True}, {'italics': True}, {'bold': True}, {'underline': True}, {'italics': True, 'bold': True}]
+KINDS = [{'italics': True}, {'italics': True}, {'bold': True}, {'underline': True}, {'italics': True, 'bold': True},
+         {'italics': True, 'text-align': 'right'}, {'italics': True, 'color': 'red', 'font-family': 'Arial'}]
 
 
 def gen_caption(rng, tag):
@@ -76,6 +78,19 @@ def cases(ctx):
         yield {'kind': 'suite'}
     chains = ['dfxp', 'sami', 'dfxp>sami', 'sami>dfxp', 'webvtt']
     for i in range(ctx.budget(8000, 250000)):
+        if i % 6 == 4 and rng.random() < 0.5:
+            from vf.gen import sccprog
+            # short rows: with simulate_roll_up the visible rows are joined into one line of at most 32 characters
+            st = sccprog.gen_stream(rng, modes=rng.choice([['roll'], ['roll', 'paint'], ['roll', 'pop']]), rich=True,
+                                    italics=True, lengths=[3, 4, 5, 6], tagged=False)
+            lines, _ = sccprog.encode_stream(st)
+            yield {'kind': 'reader', 'format': 'scc', 'doc': sccprog.scc_doc(lines), 'reader_kwargs': {},
+                   'read_kwargs': {'simulate_roll_up': rng.random() < 0.7}, 'rollup': True}
+            continue
+        if i % 6 == 3 and rng.random() < 0.4:
+            d = docs.gen_dfxp_styled(rng, f'Y{ctx.shard}.{i}')
+            yield {'kind': 'doc-chain', 'doc': d['doc']}
+            continue
         if i % 6 == 5 and rng.random() < 0.5:
             from vf.gen import sccprog
             prog = sccprog.gen_popon(rng, italic_bias=rng.choice([0.0, 0.6, 0.9]))
@@ -110,7 +125,7 @@ def cases(ctx):
 
 
 def nontrivial(case):
-    return case['kind'] in ('reader', 'suite') or bool(case['features'])
+    return case['kind'] in ('reader', 'suite', 'doc-chain') or bool(case['features'])
 
 
 def flags_of_nodes(nodes_dump):
@@ -161,11 +176,34 @@ def check(case, ctx):
         ctx.count('suite_captions_balance_checked', data['counts'].get('read_caption_observed', 0))
         return [{'what': v['violation'], 'test': v.get('test'), 'text': v.get('text')} for v in data['violations']
                 if v.get('property') == 'C11'][:3]
+    if case['kind'] == 'doc-chain':
+        # a styled DFXP document: the italic characters of what the reader returns must survive DFXP -> DFXP
+        try:
+            first = pycaption.DFXPReader().read(case['doc'])
+        except Exception as e:
+            return [{'what': 'reader raised', 'error': repr(e)[:300]}]
+        ctx.count('dfxp_documents_round_tripped')
+        want = {l: [flags_of_nodes([dump.node(n) for n in c.nodes])[0] for c in first.get_captions(l)]
+                for l in first.get_languages()}
+        second = pycaption.DFXPReader().read(pycaption.DFXPWriter().write(first))
+        for l, caps in want.items():
+            got = [flags_of_nodes([dump.node(n) for n in c.nodes])[0] for c in second.get_captions(l)]
+            proj = lambda seq: [(ch, f[0]) for ch, f in seq]
+            if [proj(x) for x in got] != [proj(x) for x in caps]:
+                fails.append({'what': 'italic characters of a DFXP document differ after DFXP -> DFXP', 'lang': l,
+                              'expected': [_show([(c, (f[0],)) for c, f in x]) for x in caps][:4],
+                              'got': [_show([(c, (f[0],)) for c, f in x]) for x in got][:4]})
+        return fails[:3]
     if case['kind'] == 'reader':
+        if case.get('rollup'):
+            ctx.count('rollup_streams_with_italics_read')
         name = 'SCCReader' if case['format'] == 'scc' else docs.READERS[case['format']]
         try:
             cs = getattr(pycaption, name)(**case['reader_kwargs']).read(case['doc'], **case['read_kwargs'])
         except Exception as e:
+            if type(e).__name__ == 'CaptionLineLengthError' and case.get('rollup'):
+                ctx.count('rollup_streams_rejected_for_line_length')
+                return []
             return [{'what': 'reader raised', 'error': repr(e)[:300]}]
         for lang in cs.get_languages():
             for c in cs.get_captions(lang):
